@@ -351,7 +351,7 @@ def run(ctx):
     def known_fn(lines, complaint, lh):
         for k in known:
             if k['key'] == 'v4v6' and is_v4v6_collision(lines):
-                return k
+                return k['text']
         return None
 
     # the shipped limits: the C++ side keeps its constructor's values, model and reference get the numbers read from the code
